@@ -274,7 +274,9 @@ Definition is_comp (t : ty) : bool := match t with TComp _ _ _ => true | _ => fa
 (* what the translated filters see of a pydsdl primitive type                                                        *)
 (* ---------------------------------------------------------------------------------------------------------------- *)
 Inductive pkind : Type := KBool | KUInt | KSInt | KFloat | KVoid.
-Record pty : Type := { pty_kind : pkind; pty_bit_length : Z }.
+Inductive pcast : Type := CM_SATURATED | CM_TRUNCATED.
+Record pty : Type := { pty_kind : pkind; pty_bit_length : Z; pty_cast_mode : pcast }.
+Definition mk_pty (k : pkind) (w : Z) : pty := {| pty_kind := k; pty_bit_length := w; pty_cast_mode := CM_SATURATED |}.
 
 Inductive pclass : Type :=
 | C_PrimitiveType | C_BooleanType | C_ArithmeticType | C_IntegerType | C_UnsignedIntegerType | C_SignedIntegerType | C_FloatType
@@ -296,7 +298,7 @@ Definition py_isinstance (t : pty) (c : pclass) : bool :=
   end.
 
 Inductive mtarget : Type := TgtC | TgtCpp | TgtPy.
-Inductive mkey : Type := KExtentBytes | KBufferBytes | KCap | KUnionCount | KPortId | KFullName.
+Inductive mkey : Type := KExtentBytes | KBufferBytes | KCap | KUnionCount | KPortId | KFullName | KConst.
 Record export : Type := { ex_tgt : mtarget; ex_key : mkey; ex_exp : mexp }.
 
 (* a decimal floating constant rounds to a finite double iff its magnitude is below 2^1024 - 2^970 (half an ulp above DBL_MAX);
@@ -340,3 +342,19 @@ Definition parse_fdec (s : list N) : option (Z * Z) :=
       let mz := if neg then - Z.of_N m else Z.of_N m in
       Some (if 0 <=? e' then (mz * 10 ^ e', 1) else (mz, 10 ^ (- e')))
   end.
+
+(* the Jinja conditions / loops that enclose the place where a constant is rendered (template scan) *)
+Inductive mcond : Type :=
+| CondHas (s : msrc)         (* {% if T.has_fixed_port_id %} *)
+| CondNotNone (s : msrc)     (* {% if T.fixed_port_id is not none %} *)
+| CondTruthy (s : msrc)      (* {% if T.fixed_port_id %}: false for None AND for 0 *)
+| CondEach                   (* {% for constant in t.constants %} without a filter *)
+| CondEachArray              (* {% for f in t.fields_except_padding if f.data_type is ArrayType %} *)
+| CondNotService             (* {% if t is not ServiceType %} *)
+| CondOther.
+Record emit : Type := { em_tgt : mtarget; em_key : mkey; em_conds : list mcond }.
+
+(* what the storage-type filters see of the language configuration (properties.yaml) *)
+Record lang : Type := { lang_use_standard_types : bool; lang_named_boolean : list N }.
+Definition opt_is_none (o : option (list N)) : bool := match o with None => true | Some _ => false end.
+Definition opt_str_get (o : option (list N)) : list N := match o with Some s => s | None => [] end.
